@@ -39,10 +39,12 @@ def hostile_segments(rng, quick):
         "level-jump": lambda: "A%d,B%s,A%d" % (rng.choice([30, 32000]), hx(b"\xab" * 16 + rng.bytes(20)), 0),
         "shifted-preamble-tail": lambda: "B" + hx(b"\xab" * 16 + b"ZCZC-" + b"WWW\xd7"),
         # a burst the framer accepts (prefix within its bit-error budget) whose data breaks off after one, two or three bytes: the
-        # combiner is handed an estimate of that length
-        "prefix-then-invalid": lambda: "B" + hx(b"\xab" * 16 + (lambda pre, k: pre[:k] + bytes([pre[k] ^ 0x40]) + pre[k + 1:])(rng.choice([b"ZCZC", b"NNNN"]), rng.range(1, 3))
+        # combiner is handed an estimate of that length.  Header prefix only: a damaged NNNN burst next to the library's lone trailer
+        # is legitimate evidence for an EndOfMessage, which the first burst of the clean transmission then completes (a false alarm
+        # of the first version of this generator)
+        "prefix-then-invalid": lambda: "B" + hx(b"\xab" * 16 + (lambda pre, k: pre[:k] + bytes([pre[k] ^ 0x40]) + pre[k + 1:])(b"ZCZC", rng.range(1, 3))
                                                + newH()[4:rng.range(4, 30)]),
-        "short-bursts-pair": lambda: (lambda b: "B%s,S1.00,B%s" % (b, b))(hx(b"\xab" * 16 + rng.choice([b"ZCZC", b"NNNN"])[:4] + bytes([rng.choice([0x03, 0x80, 0x1f])]))),
+        "short-bursts-pair": lambda: (lambda b: "B%s,S1.00,B%s" % (b, b))(hx(b"\xab" * 16 + b"ZCZC" + bytes([rng.choice([0x03, 0x80, 0x1f])]))),
     }
     names = sorted(kinds)
     n = rng.choice([1, 2, 3, 5])
@@ -104,6 +106,8 @@ def run(ctx):
             if kd and kd[0]["line"] not in ctx.known:
                 ctx.known.append(kd[0]["line"])
             ok += 1
+        elif c and rxlib.f11_known(ctx, "C10", tx, ev, [tx.H, b"NNNN"]):
+            ok += 1
         elif c:
             ctx.violation("property", "after hostile audio %s and a %.2f s gap the clean transmission is not decoded exactly: %s [%s]"
                           % (picked, gap, c, tx.describe()), {"input": line, "events": r["impl"][-3000:], "hostile": picked})
@@ -113,6 +117,7 @@ def run(ctx):
             ok += 1
         if len(samples) < 3:
             samples.append({"hostile": picked, "gap": gap, "rate": tx.rate, "script_head": script[:160]})
+    ctx.coverage["known_finding_F11_witness_reproduces"] = rxlib.run_f11_witness(ctx, "C10")
     ctx.coverage.update({
         "evaluations": len(cases), "distinct_nontrivial": nontriv,
         "rule": "1..5 hostile segments drawn from the library (listed under 'hostile_kinds'), optional short silences between them, "
